@@ -30,6 +30,12 @@ Uppers(ty) == UNION {BoundSpellings(ty, k) : k \in {"less", "less_or_equal"}}
 
 San(fn, p) == [k |-> "with", fn |-> fn, p |-> p]
 Sans(ty) == {<<>>, <<San("to_k", <<0, 5>>)>>, <<San("clamp", <<IF ty = "i8" THEN -5 ELSE 3, 10>>)>>}
+\* a sanitizer that moves EVERY candidate of a narrow range: with bounds [10, 10] the only candidate 10 is doubled out of
+\* the range although 10 itself is obtainable (from 5); with [4, 10] some candidates are
+Doubling(ty) == <<San("dbl_sat", <<TMin(ty), TMax(ty)>>)>>
+NarrowPairs == {{Rule("greater_or_equal", 10, "lit", <<>>), Rule("less_or_equal", 10, "lit", <<>>)},
+                {Rule("greater_or_equal", 4, "lit", <<>>), Rule("less_or_equal", 10, "lit", <<>>)},
+                {Rule("greater", 9, "lit", <<>>), Rule("less", 11, "expr", <<>>)}}
 
 Traits == <<"Debug", "Clone", "Copy", "PartialEq", "Arbitrary">>
 Decl(ty, san, vmode, val) ==
@@ -46,6 +52,7 @@ DeclSpace ==
     UNION {{Decl(ty, <<>>, "std", val) : val \in Perms(S)} : S \in {T \in Pairs(ty) \cup Singles(ty) : NonEmpty(ty, T)}}
     \cup {dd \in UNION {{Decl(ty, san, "std", val) : val \in Perms(S), san \in Sans(ty)} : S \in {T \in Singles(ty) : NonEmpty(ty, T) /\ \A r \in T : r.sp = "lit"}} :
             Obtainable(dd, Dom(ty)) # {}}        \* precondition of C09: some value is obtainable (after sanitisation)
+    \cup {dd \in UNION {{Decl(ty, Doubling(ty), "std", val) : val \in Perms(S)} : S \in NarrowPairs} : Obtainable(dd, Dom(ty)) # {}}
     \cup {Decl(ty, san, "none", <<>>) : san \in Sans(ty)}
   : ty \in {"i8", "u8"}}
 
@@ -96,6 +103,11 @@ ADone == pc = "done"
 \* (the sanitizer candidate found by this model is repaired too: a rejected draw is an arbitrary::Error)
 HasSanitizer(d) == d.san # <<>>
 Known(d) == FALSE
+\* C14 only: the generator draws a RAW candidate inside the boundaries and sanitises it afterwards; with a custom
+\* sanitizer that is not the identity on that range the produced set is a strict subset of the obtainable one
+\* (`dbl_sat` with [10, 10]: 10 is obtainable from 5, but the only candidate 10 becomes 20).  Known finding
+\* C14-int-sanitizer-subset (DESIGN.md section 15); no panic and no invalid value is excused by it.
+KnownSubset(d) == d.vmode = "std" /\ \E j \in DOMAIN d.san : d.san[j].fn = "dbl_sat"
 
 StepFormAgrees == ADone => out = OpArbInt(D, 1, TMin(D.ty), TMax(D.ty), bytes)
 
@@ -104,11 +116,12 @@ TotalAndValid == ADone => (ArbOutcomeOK(D, out, Dom(D.ty)) \/ Known(D))
 
 \* C14 on the model (evaluated once per declaration, on its initial states)
 Produced(d) == {OutVal(o) : o \in {p \in {OpArbInt(d, 1, TMin(d.ty), TMax(d.ty), bs) : bs \in ByteStrings} : IsOk(p)}}
-CoversValidSet == (pc = "start") => (ArbCovers(D, Produced(D), Dom(D.ty)) \/ Known(D))
+CoversValidSet == (pc = "start") => (ArbCovers(D, Produced(D), Dom(D.ty)) \/ Known(D)
+                                        \/ (KnownSubset(D) /\ Produced(D) \subseteq Obtainable(D, Dom(D.ty))))
 
 \* the candidates are real: some declaration with an operator spelling really misses or panics
 EmitDecl == (pc = "start") =>
-  PrintT(<<"DECL", 0, ToJson([d |-> D, known |-> Known(D), covers |-> ArbCovers(D, Produced(D), Dom(D.ty)),
+  PrintT(<<"DECL", 0, ToJson([d |-> D, known |-> Known(D), subset |-> KnownSubset(D), covers |-> ArbCovers(D, Produced(D), Dom(D.ty)),
                                  panics |-> (\E bs \in ByteStrings : OpArbInt(D, 1, TMin(D.ty), TMax(D.ty), bs).k = "panic")])>>)
 
 APrim(n, x, env) == x
